@@ -3,7 +3,7 @@
 //! A case is one or two URIs in a role ("kind"): rpkiManifest URIs of two
 //! sibling CAs (`mft`; `mftn`: both CAs also carry an rpkiNotify URI), URIs of
 //! two trust anchor locators (`ta` rsync, `tah` HTTPS), rpkiNotify URIs of two
-//! CAs (`notify`).  For every case real worlds are built with the object
+//! CAs (`notify`; `notify1`: both CAs name the same manifest).  For every case real worlds are built with the object
 //! factory - one with the first URI only, one with the second only, one with
 //! both - published through the in-process rsync and HTTP doubles, validated
 //! by the unmodified engine with the cache inside a jail directory, and
@@ -143,7 +143,7 @@ fn brief(c: &Case) -> Value { json!({"kind": c.kind, "u1": short(&c.u[0]), "u2":
 fn short(s: &str) -> String { s.replace(&long_seg(300), "x300").replace(&long_seg(200), "x200") }
 
 fn real_accepts(kind: &str, u: &str) -> bool {
-    if kind == "tah" || kind == "notify" { uri::Https::from_str(u).is_ok() } else { uri::Rsync::from_str(u).is_ok() }
+    if kind == "tah" || kind.starts_with("notify") { uri::Https::from_str(u).is_ok() } else { uri::Rsync::from_str(u).is_ok() }
 }
 
 //------------ Worlds ------------------------------------------------------------
@@ -203,8 +203,12 @@ fn build(c: &Case, with: [bool; 2], f: &Factory) -> Built {
                 if c.kind == "mftn" { ca.notify = Some(FIXED_NOTIFY.into()); }
                 world.cas.push(ca);
             }
-            "notify" => {
-                let mut ca = Ca::new(&format!("c{n}"), Some(0), n, &format!("rsync://o.test/m/c{n}/"));
+            "notify" | "notify1" => {
+                // notify1: both CAs name the same manifest (only one of them can be valid; the point file of
+                // the other is created all the same)
+                let dir = if c.kind == "notify1" { 1 } else { n };
+                let mut ca = Ca::new(&format!("c{n}"), Some(0), n, &format!("rsync://o.test/m/c{dir}/"));
+                ca.mft_name = Some(format!("c{dir}.mft"));
                 ca.prefixes = vec![format!("{addr}/16")];
                 ca.asns = vec![(64500 + n as u32, 64500 + n as u32)];
                 ca.objects.push(roa_obj(&format!("c{n}.roa"), 64500 + n as u32, &addr, 16));
@@ -408,7 +412,7 @@ struct Worker<'a> {
 }
 
 impl Worker<'_> {
-    fn needs_http(kind: &str) -> bool { kind == "tah" || kind == "notify" }
+    fn needs_http(kind: &str) -> bool { kind == "tah" || kind.starts_with("notify") }
     fn uses_rrdp(kind: &str) -> bool { kind != "mft" && kind != "ta" }
 
     fn observe(&mut self, c: &Case, with: [bool; 2]) -> Obs {
@@ -459,8 +463,12 @@ fn diverge(rep: &mut Report, said: &Mutex<BTreeSet<String>>, class: &str, text: 
 /// Compares the model's predicted entries of URI i with a world's tree.
 fn check_prediction(rep: &mut Report, said: &Mutex<BTreeSet<String>>, c: &Case, i: usize, o: &Obs) {
     if o.run != "ok" { return }
+    // an entry with alternatives (the two names the dump registry may give): one of them is enough
+    let alts: Vec<&Ent> = c.ents[i].iter().filter(|e| e.alt).collect();
     for e in &c.ents[i] {
         if e.alt || (e.dump && o.dump != "ok") { continue }
+        if e.dump && !alts.is_empty() && e.n.starts_with("dump/store/")
+            && alts.iter().any(|a| o.tree.get(&a.n) == Some(&a.file)) { continue }
         match o.tree.get(&e.n) {
             Some(is_file) if *is_file == e.file => {}
             Some(_) => diverge(rep, said, &format!("entry-type/{}/{}", c.kind, area_of(&e.n)),
@@ -558,6 +566,20 @@ fn one(rep: &mut Report, w: &mut Worker, c: &Case) {
             rep.add_note(P, "remote_tree_clashes_ignored", 1);
             continue
         }
+        // The dump registry names the directories of RRDP repositories in the order it meets them: two
+        // repositories that get the same name when dumped alone get different names when dumped together.
+        // A shared dump file is real only if the dump of both has no entry beyond those of the single dumps.
+        // That can only be seen if both are in the store when the dump is made, i.e. both CAs validated.
+        if area == "dump" && c.kind.starts_with("notify") {
+            let both_valid = both.validated[0] == Some(true) && both.validated[1] == Some(true);
+            let extra = both.tree.keys().any(|p| {
+                p.starts_with("dump/") && !base.tree.contains_key(p) && !own1.contains_key(p) && !own2.contains_key(p)
+            });
+            if !both_valid || both.dump != "ok" || extra {
+                rep.add_note(P, "dump_registry_names_not_comparable", 1);
+                continue
+            }
+        }
         let sig = format!("collision/{}/{}", k, area);
         if !sigs.insert(sig.clone()) { continue }
         rep.violation(P, &sig,
@@ -572,10 +594,14 @@ fn one(rep: &mut Report, w: &mut Worker, c: &Case) {
         reported = true;
     }
     let remote_clash = both.skipped.iter().any(|u| !singles[0].skipped.contains(u) && !singles[1].skipped.contains(u));
+    let both_valid = both.validated[0] == Some(true) && both.validated[1] == Some(true);
     if alone_ok && both.run == "ok" {
-        // nothing stored for one URI may be lost to the other (unless the remote tree cannot hold both)
+        // nothing stored for one URI may be lost to the other (unless the remote tree cannot hold both; a point
+        // that never had a valid manifest is removed by the cleanup of the same run when the run takes less than
+        // a second - store.rs:1153 compares a whole-second time stamp with the start time - so only worlds in
+        // which both validate are compared)
         for (o, i) in [(&own1, 0), (&own2, 1)] {
-            if remote_clash { break }
+            if remote_clash || !both_valid { break }
             for (p, f) in o {
                 if !p.starts_with("cache/stored/") { continue }
                 if both.tree.get(p) != Some(f) {
@@ -586,7 +612,9 @@ fn one(rep: &mut Report, w: &mut Worker, c: &Case) {
                 }
             }
         }
-        if singles[0].dump == "ok" && singles[1].dump == "ok" && both.dump != "ok" && !reported {
+        // (`routinator dump` fails on a store that holds a point which never had a valid manifest; only a world
+        // in which both CAs / TAs validate shows a failure that is due to the pair)
+        if singles[0].dump == "ok" && singles[1].dump == "ok" && both.dump != "ok" && both_valid && !reported {
             rep.violation(P, &format!("collision/dump-{}/{}", both.dump.split(':').next().unwrap(), c.kind),
                 format!("the dump works for {} alone and for {} alone but not for both", short(&c.u[0]), short(&c.u[1])),
                 ctx(), observed());
